@@ -255,6 +255,25 @@ def main(argv=None):
     for e in kf:
         if not e.get("_seen"):
             lines.append(f"STALE-FINDING: property={pid} {e['id']} did not reproduce in this run ({e['what']})")
+    # ---- generic lemmas the property's argument relies on, machine-checked in Lean on every run
+    lemmas_checked = []
+    for lf, what in getattr(mod, "LEAN_LEMMAS", []):
+        import shutil
+        import subprocess
+
+        path = os.path.join(ROOT, "lean", lf)
+        if shutil.which("lean") is None:
+            undecided.append(f"lemma {lf}: lean not available")
+            continue
+        try:
+            pr = subprocess.run(["lean", path], capture_output=True, text=True, timeout=300)
+            txt = pr.stdout + pr.stderr
+            if pr.returncode == 0 and "error" not in txt and "sorry" not in txt:
+                lemmas_checked.append(f"{what}: lean/{lf} accepted by Lean 4 ({txt.strip().splitlines()[-1] if txt.strip() else 'no axioms output'})")
+            else:
+                undecided.append(f"lemma {lf}: Lean did not accept it: {txt[-300:]}")
+        except Exception as e:
+            undecided.append(f"lemma {lf}: {e}")
     # ---- evidence
     claim = getattr(mod, "CLAIM", "other")
     proved_all = total > 0 and discharged == total and not undecided
@@ -266,7 +285,7 @@ def main(argv=None):
         trusted_base=sorted(notes.get("lib", set())) + sorted("summary:" + s for s in notes.get("summary", set())),
         explanation=getattr(mod, "EXPLANATION", ""),
         functions_under_contract=sorted(functions.values(), key=lambda d: (d["file"], d["lines"][0])),
-        obligations_by_backend=by_backend, conformance_samples=conf_total, conformance_mismatches=conf_bad, solver_seconds=round(solver_s, 2),
+        lemmas_checked=lemmas_checked, obligations_by_backend=by_backend, conformance_samples=conf_total, conformance_mismatches=conf_bad, solver_seconds=round(solver_s, 2),
         undecided=undecided[:50], bounded_items=sorted(notes.get("bounded", set())),
         assumed=sorted(notes.get("assumed", set())) + sorted(notes.get("assumed-assert", set())) + sorted(notes.get("assumed-precondition", set())),
         opaque=sorted(notes.get("opaque", set())),
